@@ -84,6 +84,11 @@ RunStep ==
             /\ (IF s.a = 0 \/ s.b = 0 THEN Complete(t, IF s.a = 0 THEN "first" ELSE "second")
                 ELSE Block(t, "select", now + s.a, now + s.b))
             /\ UNCHANGED <<ivl, q, amb, pendSelf, shut>>
+       [] s.k = "handpoll" ->  \* a sleep that was first polled by somebody else (another task, a throw-away waker) and is then awaited here
+            /\ (IF s.a = 0 THEN Complete(t, "ok") ELSE Block(t, "timer", now + s.a, INF))
+            /\ UNCHANGED <<ivl, q, amb, pendSelf, shut>>
+       [] s.k = "yield" ->     \* tokio::task::yield_now(): the task stays runnable, nothing else happens
+            /\ Complete(t, "ok") /\ UNCHANGED <<ivl, q, amb, pendSelf, shut>>
        [] s.k = "twin" ->      \* two timers with one deadline in one task; the first one is dropped at once, the second awaited
             /\ (IF s.a = 0 THEN Complete(t, "ok") ELSE Block(t, "timer", now + s.a, INF))
             /\ UNCHANGED <<ivl, q, amb, pendSelf, shut>>
